@@ -10,7 +10,7 @@ correspond():  generated sims (sir/sis on their own timelines, deaths / pregnanc
 search():      the property on the real code only: independent recounts, running sums, flows, prevalence bounds,
                scaled-vs-unscaled twins (exactly k x), exports vs arrays, finalize-once, summary rule.
 """
-import os, json, tempfile, fractions, copy
+import os, json, tempfile, fractions, copy, zlib
 import numpy as np
 from harness import impl
 
@@ -26,7 +26,10 @@ RULE = ('every run: 9 fixed scenario sims (cum_deaths witness; SIS + deaths with
         'define_results, population scale given as nothing / integer pop_scale / float pop_scale (incl. < 1) / total_pop (integer ratio, fractional ratio, '
         'fewer people than agents). One case = one sim; distinct = distinct configuration; non-trivial = at least one death or infection recorded and a '
         'factor != 1. Per sim: recount of every people / disease series from per-agent snapshots, population-flow machine, op machine (finalize, rates, '
-        'summary, exports). Plus random validate_total_pop inputs (incl. total_pop < n_agents).')
+        'summary, exports). Plus random validate_total_pop inputs (incl. total_pop < n_agents). Plus the shared scenario zoo (harness/zoo.py, 46 fixed '
+        'configurations built by impl.build_sim) on every run: search() applies every oracle to each entry as given and to one scaled variant of it '
+        '(rotating scale forms; the entry as given is the unscaled twin); correspond() follows the scaled variant (recount, op machine, flows) with all '
+        'driver lines of the zoo in one driver call per stage.')
 TRUSTED = ['NumPy: count_nonzero / sum / cumsum / true division of int64 arrays; float64 product of an integer count and the scale factor is compared exactly when representable, else within 4 ulp (counted)',
            'sciris save/load, pandas DataFrame construction (values read back and compared with the arrays)']
 ASSUMPTIONS = ['the probe reads Arr.raw[auids] directly; that `auids` are the active agents is property C10/C11',
@@ -160,7 +163,10 @@ def run_probed(cfg, scale=True, probe=True):
     """ Run the real sim; returns dict(sim, raw, meta, people, diseases) """
     import starsim as ss
     np.random.seed(cfg.get('rand_seed', 1) % 2**31)   # some modules read the global generator (C01 findings): make twins comparable
-    sim = build(cfg, scale=scale)
+    if cfg.get('builder') == 'impl':      # a configuration of the shared scenario zoo (harness/zoo.py): built by impl.build_sim as it is
+        sim = impl.build_sim(cfg if scale else {k: v for k, v in cfg.items() if k not in ('pop_scale', 'total_pop')})
+    else:
+        sim = build(cfg, scale=scale)
     sim.init()
     rec = dict(people=[], diseases={}, mods={}, n0=int(sim.people.uid.len_used), n_agents=int(sim.pars.n_agents))
     ppl = sim.people
@@ -419,7 +425,51 @@ def arr_same(a, b):
     return a.shape == b.shape and np.array_equal(a, b, equal_nan=True)
 
 
+def drive_gen(ctx, gen):
+    """ run one correspondence generator (it yields driver lines and is sent the driver's answers) with one driver call per yield """
+    try:
+        lines = next(gen)
+        while True:
+            lines = gen.send(ctx.drive(DRIVER, lines))
+    except StopIteration as e:
+        return e.value
+
+
+def drive_batch(ctx, gens, on_exc):
+    """ run many correspondence generators {label: gen} with ONE driver call per round (their lines concatenated: every line of the
+        protocol is either stateless or follows the `sim new` of its own block) """
+    results = {}; pending = {}
+    for lab, g in gens.items():
+        try: pending[lab] = (g, next(g))
+        except StopIteration as e: results[lab] = e.value
+        except Exception as e: on_exc(lab, e)
+    while pending:
+        labs = list(pending)
+        lines = [l for lab in labs for l in pending[lab][1]]
+        out = ctx.drive(DRIVER, lines)
+        outs = {}
+        if len(out) == len(lines):
+            pos = 0
+            for lab in labs:
+                n = len(pending[lab][1]); outs[lab] = out[pos:pos + n]; pos += n
+        else:     # the driver lost a line: one by one, so that the faulty block is reported as itself
+            ctx.count('zoo_batch_fallback')
+            for lab in labs: outs[lab] = ctx.drive(DRIVER, pending[lab][1])
+        nxt = {}
+        for lab in labs:
+            g = pending[lab][0]
+            try: nxt[lab] = (g, g.send(outs[lab]))
+            except StopIteration as e: results[lab] = e.value
+            except Exception as e: on_exc(lab, e)
+        pending = nxt
+    return results
+
+
 def correspond_sim(ctx, cfg, facts):
+    return drive_gen(ctx, correspond_sim_gen(ctx, cfg, facts))
+
+
+def correspond_sim_gen(ctx, cfg, facts):
     rec = run_probed(cfg)
     sim = rec['sim']; raw = rec['raw']
     lines = []
@@ -432,7 +482,7 @@ def correspond_sim(ctx, cfg, facts):
         lines.append(disease_line(info, len(raw[f'{dn}_prevalence']), info['states'].index('infected')))
     sl, keys = sim_lines(rec, facts)
     lines += sl
-    out = ctx.drive(DRIVER, lines)
+    out = yield lines
     if any(o == 'bad-op' for o in out) or len(out) != len(lines):
         ctx.broke('correspondence', 'C15.protocol', f'driver rejected a line ({[l[:60] for l, o in zip(lines, out) if o == "bad-op"][:3]})', data=cfg)
         return None
@@ -570,10 +620,10 @@ def correspond_sim(ctx, cfg, facts):
     scaled = sim.pars.pop_scale != 1
     activity = float(np.sum(raw['new_deaths'])) + sum(float(np.sum(raw[f'{dn}_new_infections'])) for dn in dnames)
     ctx.case(('sim', json.dumps(cfg, sort_keys=True)), nontrivial=bool(scaled and activity > 0),
-             sample=dict(kind='sim', scale_form=cfg['scale_form'], pop_scale=float(sim.pars.pop_scale), diseases=[(d['type'], d.get('dt_mult'), d.get('name')) for d in cfg['diseases']],
+             sample=dict(kind='sim', scale_form=cfg.get('scale_form', 'zoo'), pop_scale=float(sim.pars.pop_scale), diseases=[(d['type'], d.get('dt_mult'), d.get('name')) for d in cfg['diseases']],
                          demographics=[d['type'] for d in cfg['demographics']], npts=npts, series=len(keys)))
     ctx.count('series_compared', len(keys))
-    ctx.count('form_' + cfg['scale_form'])
+    ctx.count('form_' + cfg.get('scale_form', 'zoo'))
     return rec
 
 
@@ -631,6 +681,10 @@ def rate_specs(rec):
 
 
 def correspond_flows(ctx, cfg, rec):
+    return drive_gen(ctx, correspond_flows_gen(ctx, cfg, rec))
+
+
+def correspond_flows_gen(ctx, cfg, rec):
     sim = rec['sim']; raw = rec['raw']
     final = {k: np.asarray(v.values) for k, v in sim.results.flatten().items()}
     lines = []; kinds = []
@@ -647,7 +701,7 @@ def correspond_flows(ctx, cfg, rec):
                      f"{','.join(map(str, sp['inds'])) if sp['inds'] else '-'}")
         kinds.append(sp)
     if not lines: return
-    out = ctx.drive(DRIVER, lines)
+    out = yield lines
     for kind, ln, o in zip(kinds, lines, out):
         if not o.startswith('ok'):
             ctx.broke('correspondence', 'C15.flows', f'driver answered {o[:60]} to `{ln[:80]}`', data=cfg); return
@@ -724,18 +778,59 @@ def correspond(ctx):
     if bool(r0.scale) != facts['result_defaults']['scale']:
         ctx.broke('extract', 'ResultsTable', 'default scale flag of ss.Result differs from the extracted default')
     correspond_vtp(ctx)
+    correspond_zoo(ctx, facts)
     n = ctx.budget(16, 100)
-    scen = [copy.deepcopy(c) for c in FIXED_CFGS + FINE_TIMELINE_CFGS + SCENARIO_CFGS]
-    for i in range(len(scen) + n):
-        cfg = scen[i] if i < len(scen) else gen_cfg(ctx.rng)
+    cfgs = [copy.deepcopy(c) for c in FIXED_CFGS + FINE_TIMELINE_CFGS + SCENARIO_CFGS] + [gen_cfg(ctx.rng) for _ in range(n)]
+
+    def one(cfg):
         try:
-            rec = correspond_sim(ctx, cfg, facts)
+            rec = yield from correspond_sim_gen(ctx, cfg, facts)
             if rec is not None and not ctx.broken:
-                correspond_flows(ctx, cfg, rec)
+                yield from correspond_flows_gen(ctx, cfg, rec)
         except impl_errors() as e:
             ctx.broke('correspondence', 'C15.run', f'generated sim raised {type(e).__name__}: {e}', data=cfg)
+
+    def reraise(lab, e):
+        raise e
+
+    CHUNK = 32      # sims per driver call (every driver call waits for the project lock: few large calls instead of two per sim)
+    for start in range(0, len(cfgs), CHUNK):
         if len(ctx.broken) >= 3:
             break
+        drive_batch(ctx, {start + j: one(c) for j, c in enumerate(cfgs[start:start + CHUNK])}, reraise)
+
+
+class _ZooCtx:
+    """ the check context for one zoo entry: broken ties are reported with the entry's name """
+    def __init__(self, ctx, name):
+        self._ctx = ctx; self._name = name; self.n_broke = 0
+
+    def __getattr__(self, k):
+        return getattr(self._ctx, k)
+
+    def broke(self, kind, name, detail, data=None):
+        self.n_broke += 1
+        return self._ctx.broke(kind, name, f'[zoo:{self._name}] {detail}', data)
+
+
+def correspond_zoo(ctx, facts):
+    """ recount / op machine / flows correspondence on every zoo entry (the scaled variant where the entry gives no scale), all
+        driver lines of the zoo in one driver call per stage """
+    def one(z, cfg):
+        rec = yield from correspond_sim_gen(z, cfg, facts)
+        if rec is not None and not z.n_broke:
+            yield from correspond_flows_gen(z, cfg, rec)
+        return rec is not None
+
+    def on_exc(lab, e):      # a harness exception is counted and shown in the evidence, not reported as a broken tie
+        ctx.count('zoo_exceptions'); ctx.notes['last_zoo_exception'] = f'correspond {lab}: {type(e).__name__}: {e}'
+
+    gens = {}
+    for name, cfg, var in zoo_cfgs():
+        lab = name + ('+scale' if var is not None else '')
+        gens[lab] = one(_ZooCtx(ctx, lab), var if var is not None else cfg)
+    res = drive_batch(ctx, gens, on_exc)
+    ctx.count('zoo_runs', len(res))
 
 
 def impl_errors():
@@ -749,8 +844,10 @@ def sig(**kw):
     return kw
 
 
-def oracle_sim(cfg, twin=True, check_exports=True):
-    """ All C15 oracles on one configuration; returns a list of dict(signature, what) """
+def oracle_sim(cfg, twin=True, check_exports=True, twin_rec=None, keep=None):
+    """ All C15 oracles on one configuration; returns a list of dict(signature, what).
+        twin_rec: an already finished run of the same configuration without pop_scale / total_pop (else it is run here);
+        keep: a dict that receives the finished run (`rec`) """
     import starsim as ss
     fails = []
 
@@ -759,6 +856,7 @@ def oracle_sim(cfg, twin=True, check_exports=True):
             fails.append(dict(signature=signature, what=what))
 
     rec = run_probed(cfg)
+    if keep is not None: keep['rec'] = rec
     sim = rec['sim']; raw = rec['raw']; meta = rec['meta']
     k = sim.pars.pop_scale
     final = {kk: np.asarray(v.values) for kk, v in sim.results.flatten().items()}
@@ -904,7 +1002,7 @@ def oracle_sim(cfg, twin=True, check_exports=True):
         if sp['inds'] is not None: al = al[sp['inds']]
         undefined_at[sp['key']] = np.nonzero(al[:len(final[sp['key']])] == 0)[0]
     if twin and k != 1:
-        rec1 = run_probed(cfg, scale=False, probe=False)
+        rec1 = twin_rec or run_probed(cfg, scale=False, probe=False)
         f1 = {kk: np.asarray(v.values) for kk, v in rec1['sim'].results.flatten().items()}
         k1 = rec1['sim'].pars.pop_scale
         if set(f1) != set(final):
@@ -1064,7 +1162,52 @@ EXTRA_CFGS = [   # other disease classes: scale flags of their float results, in
 ]
 
 
+# ---------------------------------------------------------------------------
+# the shared scenario zoo (harness/zoo.py)
+
+ZOO_SCALES = [('pop_scale', 2.5), ('pop_scale', 3), ('total_pop', 1234), ('pop_scale', 0.5), ('total_pop', '7n'), ('total_pop', 'n/8'), ('pop_scale', 3.3)]
+
+
+def zoo_cfgs():
+    """ [(name, cfg as given, scaled variant or None)]: every zoo entry as it is (built by impl.build_sim: `builder` = 'impl'), and, for
+        the entries that do not give a population scale themselves, ONE variant with a scale (rotating through the forms: fractional and
+        integer pop_scale, below one, total_pop with a fractional ratio / an integer ratio / fewer people than agents) """
+    from harness import zoo
+    out = []
+    for i, (name, cfg) in enumerate(zoo.configs()):
+        cfg['builder'] = 'impl'
+        var = None
+        if cfg.get('pop_scale') is None and cfg.get('total_pop') is None:
+            form, v = ZOO_SCALES[zlib.crc32(name.encode()) % len(ZOO_SCALES)]     # by name: stays the same when the zoo grows
+            var = copy.deepcopy(cfg)
+            var[form] = {'7n': cfg['n_agents'] * 7, 'n/8': cfg['n_agents'] // 8}.get(v, v)
+        out.append((name, cfg, var))
+    return out
+
+
+def search_zoo(ctx):
+    """ every oracle of oracle_sim on every zoo entry as given (exports included; its own unscaled twin when it gives a scale) and on its
+        scaled variant, whose unscaled twin is the run of the entry as given """
+    for i, (name, cfg, var) in enumerate(zoo_cfgs()):
+        for label, c in (('', cfg), ('+scale', var)):
+            if c is None: continue
+            keep = {}
+            try:
+                if c is cfg:
+                    fails = oracle_sim(c, twin=True, check_exports=True, keep=keep); base = keep.get('rec')
+                else:
+                    fails = oracle_sim(c, twin=True, check_exports=True, twin_rec=base)
+            except Exception as e:     # a harness exception is not a finding (a sim that raises is C-other territory; the zoo selftest covers it)
+                ctx.count('zoo_exceptions'); ctx.notes['last_zoo_exception'] = f'search {name}{label}: {type(e).__name__}: {e}'
+                if c is cfg: break
+                continue
+            ctx.count('zoo_runs')
+            for f in fails:
+                ctx.fail(f['signature'], f'[zoo:{name}{label}] ' + f['what'], dict(kind='sim', cfg=c, signature=f['signature']))
+
+
 def search(ctx):
+    search_zoo(ctx)
     for cfg in FINE_TIMELINE_CFGS + SCENARIO_CFGS + EXTRA_CFGS:
         try:
             for f in oracle_sim(copy.deepcopy(cfg), twin=(cfg in SCENARIO_CFGS), check_exports=(cfg in SCENARIO_CFGS)):
